@@ -119,7 +119,7 @@ def env_names(soup):
     return out
 
 
-def only_closers_inserted(src, out, names=()):
+def only_closers_inserted(src, out, names=(), allow_name_padding=False):
     """None when `out` is `src` with only argument whitespace removed and
     closing delimiters `}` `]` `\\end{name}` inserted."""
     # dynamic programme over (i, j): src[:i] matched with out[:j]
@@ -151,6 +151,10 @@ def only_closers_inserted(src, out, names=()):
             while k < n and src[k] in ' \t\n\r':
                 k += 1
             if k < n and src[k] in '{[':
+                nxt.append((k, j))
+            if allow_name_padding and (k == n or src[k] == '}' or (i > 0 and src[i - 1] == '{')):
+                # used only by the classifier of KF-env-name-padding: blanks at
+                # either end of a brace group's contents (a stripped name)
                 nxt.append((k, j))
         for st in nxt:
             if st not in seen:
